@@ -36,7 +36,8 @@ import (
 // to them so that aliasing between operands is part of the enumeration.
 const preamble = `/A [1 2 3] def /B 5 array def /S (a` + "\xe9" + `c) def /T 4 string def ` +
 	`/D 3 dict def D /x 1 put /E << /x 2 /y (s) >> def /P {1 add} def /Q {pop} def ` +
-	`/count 99 def` // an operator name shadowed in userdict: lookups must find the topmost definition
+	`/count 99 def ` + // an operator name shadowed in userdict: lookups must find the topmost definition
+	`/ E /Font defineresource pop / 7 def` // the empty name is a name like any other: a font and a value are known under it
 
 var pool = []string{
 	// integers incl. boundaries
@@ -50,7 +51,7 @@ var pool = []string{
 	// reals
 	"0.5", "-1.5", "2.0",
 	// booleans, names
-	"true", "false", "/x", "/A", "/zz", "/add", "/count",
+	"true", "false", "/x", "/A", "/zz", "/add", "/count", "/", "/Font",
 	// strings and their sub-intervals
 	"S", "S 1 2 getinterval", "S 0 2 getinterval", "T", "()",
 	// arrays and their sub-intervals
